@@ -350,6 +350,29 @@ theorem srpc_defaults_built (cfg : SrpcConfig) (defs : List Bytes) (c : SrpcServ
   · simpa [he, h3 he] using hm
   · simpa [he, h2 he] using hm
 
+/-- The lookup server (`stream/srpc/server/lookup`, built through `NewServerWithMux`) filters
+exactly like a server built from the plain config with the same peer and protocol lists; its
+`server_id` is not a filter, and it always keeps the incoming link up. -/
+theorem srpcLookup_built (cfg : SrpcLookupConfig) (c : SrpcServer) (h : srpcLookupBuild cfg = some c) (s : Stream) :
+    c.disableEstablishLink = false ∧
+    ∃ ids, parsePeerIDs false cfg.peerIds = some ids ∧ parseProtocolIDs false cfg.protocolIds = some c.protocolIDs ∧
+      (c.handles s = true ↔ s.proto ∈ c.protocolIDs ∧ (ids ≠ [] → s.localPeer ∈ ids)) := by
+  unfold srpcLookupBuild at h
+  refine ⟨?_, srpc_built_handles_iff _ c h s⟩
+  unfold srpcBuild at h
+  cases hp : parseProtocolIDs false cfg.protocolIds with
+  | none => simp [hp] at h
+  | some ps =>
+    cases hi : parsePeerIDs false cfg.peerIds with
+    | none => simp [hp, hi] at h
+    | some ids =>
+      simp only [hp, hi, Option.some.injEq] at h
+      subst h
+      rfl
+
+theorem srpcLookup_ignores_serverId (cfg : SrpcLookupConfig) (sid : Bytes) :
+    srpcLookupBuild { cfg with serverId := sid } = srpcLookupBuild cfg := rfl
+
 /-! ### pubsub, solicit -/
 
 theorem pubsub_handles_iff (protocolID : Bytes) (s : Stream) :
@@ -389,5 +412,11 @@ example : ∃ cfg : FwdConfig, cfg.validate = true ∧ (fwdNew cfg).isSome = tru
   ⟨⟨[], [112], true, true⟩, by decide, by decide⟩
 
 example : ∃ cfg c, acceptNew cfg = some c := ⟨⟨[], [], [112], 7⟩, ⟨[112], [], []⟩, by decide⟩
+
+/-- The lookup server constructs (hypothesis of `srpcLookup_built` is satisfiable) and takes its
+protocol only. -/
+example : ∃ c, srpcLookupBuild ⟨[], [[112, 47, 97]], [115]⟩ = some c ∧
+    c.handles ⟨[112, 47, 97], [], []⟩ = true ∧ c.handles ⟨[112, 47, 97, 47, 120], [], []⟩ = false :=
+  ⟨⟨[[112, 47, 97]], [], false⟩, by decide, by decide, by decide⟩
 
 end Bifrost.Props.C34
